@@ -195,52 +195,53 @@ def run_native(verif, repo, scratch, name, timeout=1200):
             'cmd': 'cd <scratch>/kani-src/%s && %s' % (os.path.relpath(cd, d), ' '.join(cmd))}
 
 def run_oracles(verif, repo, scratch, names, tier, timeout=1500):
-    """run the native oracle #[test]s (bounded stand-ins / witness finders) named `names` in ONE cargo invocation on the scratch
-    copy of the working tree.  Returns {name: {'status': PASSED|FAILED|COMPILE-ERROR|MISSING-TARGET|NOT-RUN|TIMEOUT, 'cases', 'disagreements', 'first', 'bound', 'cmd'}}"""
+    """run the native oracle #[test]s (bounded stand-ins / witness finders) named `names`, one cargo invocation per crate, on
+    the scratch copy of the working tree.  Returns {name: {'status': PASSED|FAILED|COMPILE-ERROR|MISSING-TARGET|NOT-RUN|TIMEOUT,
+    'cases', 'disagreements', 'first', 'bound', 'cmd'}}"""
     d, info = prepare(verif, repo, scratch)
     out_res = {}
-    sel = []
+    groups = {}
     for nm in names:
         h = info.get(nm)
         if h is None or h.get('missing'):
             out_res[nm] = {'status': 'MISSING-TARGET', 'bound': (h or {}).get('bound', '')}
         else:
-            sel.append(nm)
-    if not sel: return out_res
-    cd = crate_dir(d, info[sel[0]]['append'])
-    env = dict(os.environ, CARGO_NET_OFFLINE='true')
-    if 'verif_oracle_scrypt_kat' in sel:
-        import scryptkat
-        kat = os.path.join(d, 'scrypt_kat.txt')
-        try:
-            scryptkat.gen(kat, tier == 'thorough')
-            env['VERIF_SCRYPT_KAT'] = kat
-        except Exception as e:
-            out_res['verif_oracle_scrypt_kat'] = {'status': 'NOT-RUN', 'note': 'OpenSSL scrypt (python hashlib) not available: %r' % (e,), 'bound': info['verif_oracle_scrypt_kat']['bound']}
-            sel.remove('verif_oracle_scrypt_kat')
-            if not sel: return out_res
-    cmd = ['cargo', 'test', '--offline', '--lib', '--', '--nocapture', '--test-threads', '4'] + sel
-    rc, out, timed_out = _run(cmd, cd, env, timeout)
-    shown = 'cd <scratch>/kani-src/%s && %s%s' % (os.path.relpath(cd, d), 'VERIF_SCRYPT_KAT=<scratch>/kani-src/scrypt_kat.txt ' if 'VERIF_SCRYPT_KAT' in env else '', ' '.join(cmd))
-    compiled = re.search(r'^running \d+ tests?', out, re.M) is not None
-    for nm in sel:
-        r = {'bound': info[nm]['bound'], 'cmd': shown}
-        if timed_out: r['status'] = 'TIMEOUT'
-        elif not compiled:
-            r['status'] = 'COMPILE-ERROR'; r['tail'] = out[-1500:]
-        else:
-            m = re.search(r'VERIF_ORACLE %s cases=(\d+) disagreements=(\d+) first=(.*)' % re.escape(nm), out)
-            t = re.search(r'^test \S*\b%s \.\.\. (ok|FAILED)' % re.escape(nm), out, re.M)
-            if m:
-                r['cases'] = int(m.group(1)); r['disagreements'] = int(m.group(2)); r['first'] = m.group(3).strip()
-            if t is None and not m: r['status'] = 'NOT-RUN'
-            elif (t and t.group(1) == 'FAILED') or (m and int(m.group(2)) > 0):
-                r['status'] = 'FAILED'
-                if not m:
-                    # the test died (panic outside the oracle's own catch): keep the panic message as the witness
-                    pm = re.search(r"thread '[^']*%s[^']*' panicked at ([^\n]*\n[^\n]*)" % re.escape(nm), out)
-                    r['first'] = pm.group(1).replace('\n', ' ') if pm else 'test aborted'
+            groups.setdefault(crate_dir(d, h['append']), []).append(nm)
+    for cd, sel in groups.items():
+        env = dict(os.environ, CARGO_NET_OFFLINE='true')
+        if 'verif_oracle_scrypt_kat' in sel:
+            import scryptkat
+            kat = os.path.join(d, 'scrypt_kat.txt')
+            try:
+                scryptkat.gen(kat, tier == 'thorough')
+                env['VERIF_SCRYPT_KAT'] = kat
+            except Exception as e:
+                out_res['verif_oracle_scrypt_kat'] = {'status': 'NOT-RUN', 'note': 'OpenSSL scrypt (python hashlib) not available: %r' % (e,), 'bound': info['verif_oracle_scrypt_kat']['bound']}
+                sel = [x for x in sel if x != 'verif_oracle_scrypt_kat']
+                if not sel: continue
+        is_lib = os.path.exists(os.path.join(cd, 'src', 'lib.rs'))
+        cmd = ['cargo', 'test', '--offline', '--lib' if is_lib else '--bins', '--', '--nocapture', '--test-threads', '4'] + sel
+        rc, out, timed_out = _run(cmd, cd, env, timeout)
+        shown = 'cd <scratch>/kani-src/%s && %s%s' % (os.path.relpath(cd, d), 'VERIF_SCRYPT_KAT=<scratch>/kani-src/scrypt_kat.txt ' if 'VERIF_SCRYPT_KAT' in env else '', ' '.join(cmd))
+        compiled = re.search(r'^running \d+ tests?', out, re.M) is not None
+        for nm in sel:
+            r = {'bound': info[nm]['bound'], 'cmd': shown}
+            if timed_out: r['status'] = 'TIMEOUT'
+            elif not compiled:
+                r['status'] = 'COMPILE-ERROR'; r['tail'] = out[-1500:]
             else:
-                r['status'] = 'PASSED' if m and int(m.group(1)) > 0 else 'NOT-RUN'
-        out_res[nm] = r
+                m = re.search(r'VERIF_ORACLE %s cases=(\d+) disagreements=(\d+) first=(.*)' % re.escape(nm), out)
+                t = re.search(r'^test \S*\b%s \.\.\. (ok|FAILED)' % re.escape(nm), out, re.M)
+                if m:
+                    r['cases'] = int(m.group(1)); r['disagreements'] = int(m.group(2)); r['first'] = m.group(3).strip()
+                if t is None and not m: r['status'] = 'NOT-RUN'
+                elif (t and t.group(1) == 'FAILED') or (m and int(m.group(2)) > 0):
+                    r['status'] = 'FAILED'
+                    if not m:
+                        # the test died (panic outside the oracle's own catch): keep the panic message as the witness
+                        pm = re.search(r"thread '[^']*%s[^']*' panicked at ([^\n]*\n[^\n]*)" % re.escape(nm), out)
+                        r['first'] = pm.group(1).replace('\n', ' ') if pm else 'test aborted'
+                else:
+                    r['status'] = 'PASSED' if m and int(m.group(1)) > 0 else 'NOT-RUN'
+            out_res[nm] = r
     return out_res
